@@ -174,7 +174,13 @@ func main() {
 				hx.Fatal("LoadRules: %v", err)
 			}
 			if got := len(isolation.GetRules()); got != len(rules) {
-				hx.Fatal("trace %d: %d of %d rules in force", cur, got, len(rules))
+				// a scenario error only if the module's validity predicate refuses a rule; valid rules that are not in force
+				// are the library's doing: run on, the decisions are judged against the rules that were loaded
+				for _, ir := range rules {
+					if err := isolation.IsValidRule(ir); err != nil {
+						hx.Fatal("trace %d: %d of %d rules in force: the scenario holds an invalid rule (%v)", cur, got, len(rules), err)
+					}
+				}
 			}
 			nres = hx.Int(s, "nres")
 			tr.Emit(hx.M{"op": "new", "tr": cur, "nres": nres, "rules": out})
